@@ -289,7 +289,7 @@ pub fn run() -> Report {
     let ls = layouts(n, thorough);
     rep.rule = format!("all n!*C(n+2,2) ordered arrangements of n={} blocks into <=3 files x gap kind (none / zeros / garbage with fake magic / unindexed block) x index storage form (log, compacted table, table+log overwrite, reopen), per-block gap products, file-number / data-offset VarInt boundary sweeps (sparse >4GiB offsets), file-name padding (also mixed digit widths in one directory), junk index keys, foreign directory entries; every layout of the same logical chain must give the model's csvdump output (hence identical across layouts); non-trivial = distinct layout", n);
     rep.bound = json!({"blocks": n, "layouts": ls.len(), "uniform_size_chain_layouts": arrangements(n + 1).len() * 2});
-    rep.not_covered = vec!["two file names parsing to the same number (ambiguous)".into(), "symlinked blk files".into(), "hundreds of files (C17 covers 200/1200 files)".into()];
+    rep.not_covered = vec!["two file names parsing to the same number (ambiguous)".into(), "blk files that are links to files of another name".into(), "hundreds of files (C17 covers 200/1200 files)".into()];
     let chain = dependent_chain(btc, 0, n);
     let all = chain.mblocks();
     let root = refmodel::world::scratch_root();
@@ -351,7 +351,24 @@ pub fn run() -> Report {
         || Report::new("C03", "e1"),
         |w, _i, l, acc| {
             let wk = Worker::new(&root, w);
-            let world = build_world(btc, &chain.blocks, 0, l);
+            let mut world = build_world(btc, &chain.blocks, 0, l);
+            // every fifth layout: some of the blk files live in another directory and are linked back (files moved to a second
+            // disk) - the first, the last, every other one, or all of them
+            if _i % 5 == 3 {
+                let nos: Vec<u64> = world.files.iter().filter(|(_, f)| f.name.starts_with("blk") && f.name.ends_with(".dat")).map(|(n, _)| *n).collect();
+                for (k, n) in nos.iter().enumerate() {
+                    let pick = match (_i / 5) % 4 {
+                        0 => k == 0,
+                        1 => k + 1 == nos.len(),
+                        2 => k % 2 == 1,
+                        _ => true,
+                    };
+                    if pick {
+                        world.extra.push(refmodel::world::Extra::Archived(*n));
+                    }
+                }
+                acc.count("layouts-with-blk-files-linked-from-another-directory", 1);
+            }
             // (verbosity rotates with the layout: log statements are code whose arguments run only when their level is on)
             let mut spec = RunSpec::new("bitcoin", "csvdump").verify(true);
             spec.verbosity = (_i % 4) as u8;
